@@ -286,6 +286,28 @@ def gen_repl_shape():
                 other.append(f"{f}: {r[:80]}")
             if any(x in r for x in LEAVING):
                 n_leaving += 1
+    # WHICH copy-back precedes every load of another layout: each prepare_globals_for_function of the interpreter must be
+    # preceded (nearest sync call before it, after the previous load) by sync_loaded_globals -- the copy-back of the layout
+    # that IS loaded -- not by a narrower one (sync_current_function_globals copies nothing when the running function has
+    # no globals of its own and runs on a caller's layout)
+    n_loads, bad_loads = 0, []
+    for f in files + ("../run.rs",):
+        try:
+            txt = strip_comments(rd("runtime/src/vm/dispatch/ops/" + f))
+        except Exception:
+            continue
+        prev = 0
+        for m in re.finditer(r"\bself\s*\.\s*prepare_globals_for_function\s*\(", txt):
+            syncs = list(re.finditer(r"\bself\s*\.\s*(sync_\w+)\s*\(", txt[prev:m.start()]))
+            n_loads += 1
+            if not syncs:
+                bad_loads.append(f"{f}: load without a copy-back")
+            elif syncs[-1].group(1) != "sync_loaded_globals":
+                bad_loads.append(f"{f}: load after {syncs[-1].group(1)}")
+            prev = m.end()
+    switches_sync_loaded = n_loads > 0 and not bad_loads
+    if bad_loads:
+        notes.append("layout loads not preceded by sync_loaded_globals: " + "; ".join(bad_loads[:4]))
     if n_sites == 0 or calls_txt is None:
         raise ExtractError("dispatch/ops: no layout switch (sync_loaded_globals) found; Model/Session.v:call_enter/do_return are out of date")
     compare_loaded = n_other == 0
@@ -316,6 +338,7 @@ def gen_repl_shape():
            f"Definition HOST_CALL_CHECKS_ARITY_FIRST : bool := {b(arity_first)}.\n",
            f"Definition CACHED_FRAME_HAS_MAPPING_ID : bool := {b(sets_gmap)}.\n",
            f"Definition CALLS_COMPARE_WITH_LOADED_LAYOUT : bool := {b(compare_loaded)}.\n",
+           f"Definition LAYOUT_SWITCHES_SYNC_THE_LOADED_LAYOUT : bool := {b(switches_sync_loaded)}.   (* {n_loads} loads of another layout *)\n",
            f"Definition RETURN_SYNCS_WHEN_LEAVING : bool := {b(return_syncs_leaving)}.\n",
            f"Definition RUN_FAST_UNWINDS_ON_ERROR : bool := {b(unwinds)}.\n",
            f"Definition SET_GLOBAL_WRITES_LOADED_SLOT : bool := {b(writes_loaded)}.\n",
